@@ -1,7 +1,7 @@
 /-
   Driver for C12: a history of network operations (with `Current` expression trees to evaluate)
   and subset queries; the observable state after each operation.
-  request : {"ops":[ {"op":"register","id":s}
+  request : {"ops":[ {"op":"register","id":s,"c":bits,"s":bits,"v":bits}   (c + i s = e^{iφ}, computed by numpy)
                    | {"op":"add","expr":E,"limit":bits,"name":s|null}
                    | {"op":"remove","name":s}
                    | {"op":"update","name":s,"expr":E,"limit":bits,"new_name":s|null}
@@ -49,8 +49,10 @@ def sortItems (l : List (String × Float)) : List (String × Float) :=
 def jCoeffs (c : Current Float) : Json :=
   jList (fun p => Json.arr #[jS p.1, jF p.2]) (sortItems c)
 
-def jState (n : Net Float) : List (String × Json) :=
-  [("stations", jList jS n.stations),
+def jState (f : FullNet Float) : List (String × Json) :=
+  let n := f.base
+  [("nangles", jN f.c.length), ("nvoltages", jN f.voltages.length),
+   ("stations", jList jS n.stations),
    ("matrix", jOpt jFss n.matrix),
    ("magnitudes", jFs n.magnitudes),
    ("index", jList jS n.index)]
@@ -59,23 +61,23 @@ def jErr : Option Err → Json
   | none => Json.null
   | some e => jS (errName e)
 
-def stepOp (n : Net Float) (o : Json) : Except String (Net Float × Json) := do
+def stepOp (n : FullNet Float) (o : Json) : Except String (FullNet Float × Json) := do
   let op ← getStr o "op"
   if op == "register" then
-    let (n', e) := n.register (← getStr o "id")
+    let (n', e) := n.step (.register (← getStr o "id") (← getF o "c") (← getF o "s") (← getF o "v"))
     pure (n', Json.mkObj (("err", jErr e) :: jState n'))
   else if op == "add" then
     let c := (← parseExpr (← o.getObjVal? "expr")).eval
     let nm ← getOpt o "name" (fun v => v.getStr?)
-    let (n', e) := n.addConstraint c (← getF o "limit") nm
+    let (n', e) := n.step (.add c (← getF o "limit") nm)
     pure (n', Json.mkObj (("err", jErr e) :: ("coeffs", jCoeffs c) :: jState n'))
   else if op == "remove" then
-    let (n', e) := n.removeConstraint (← getStr o "name")
+    let (n', e) := n.step (.remove (← getStr o "name"))
     pure (n', Json.mkObj (("err", jErr e) :: jState n'))
   else if op == "update" then
     let c := (← parseExpr (← o.getObjVal? "expr")).eval
     let nn ← getOpt o "new_name" (fun v => v.getStr?)
-    let (n', e) := n.updateConstraint (← getStr o "name") c (← getF o "limit") nn
+    let (n', e) := n.step (.update (← getStr o "name") c (← getF o "limit") nn)
     pure (n', Json.mkObj (("err", jErr e) :: ("coeffs", jCoeffs c) :: jState n'))
   else if op == "query" then
     let sched ← getFss o "sched"
@@ -83,13 +85,13 @@ def stepOp (n : Net Float) (o : Json) : Except String (Net Float × Json) := do
     let names ← getOpt o "names" asStrs
     let times ← getOpt o "times" (fun v => do (← asArr v).mapM (fun x => x.getInt?))
     match n.constraintCurrent sched T names times with
-    | .ok r => pure (n, Json.mkObj [("err", Json.null), ("result", jFss r)])
+    | .ok (re, im) => pure (n, Json.mkObj [("err", Json.null), ("result", jFss re), ("imag", jFss im)])
     | .error e => pure (n, Json.mkObj [("err", jS (errName e)), ("result", Json.null)])
   else throw s!"unknown op {op}"
 
 def handle (j : Json) : Except String Json := do
   let ops ← getArr j "ops"
-  let mut n : Net Float := Net.init
+  let mut n : FullNet Float := FullNet.init
   let mut outs : Array Json := #[]
   for o in ops do
     let (n', r) ← stepOp n o
